@@ -292,6 +292,69 @@ CHECKS = [
 ]
 
 
+# ------------------------------------------------------------------ telepods: destinations after the world changed
+
+
+@st.composite
+def strat_tele_hist(draw, tier):
+    h, w = draw(st.sampled_from([2, 3, 4])), draw(st.sampled_from([3, 4, 5]))
+    cells = [(y, x) for y in range(h) for x in range(w)]
+    k = draw(st.integers(3, min(6, len(cells))))
+    picked = draw(st.lists(st.sampled_from(cells), min_size=k, max_size=k, unique=True))
+    col = draw(st.sampled_from(COLORS))
+    n0 = draw(st.integers(1, k - 2))                        # partners present from the start
+    edits = draw(st.lists(st.tuples(st.sampled_from(['add', 'add', 'remove', 'recolour']), st.integers(0, 9)), min_size=1, max_size=3))
+    return {'shape': [h, w], 'home': list(picked[0]), 'partners': [list(p) for p in picked[1:1 + n0]], 'spare': [list(p) for p in picked[1 + n0:]], 'colour': col,
+            'edits': [list(e) for e in edits], 'first_pick': draw(st.integers(0, 5)), 'heading': draw(st.sampled_from(HEADINGS))}
+
+
+def oracle_tele_hist(case, ctx):
+    """one world, in place: the agent teleports from its home telepod, the world is then edited through the public API (a same-coloured
+    telepod put somewhere, one removed, one recoloured), the agent is put back on the home telepod: now *each* current partner must be a
+    possible destination (every outcome of the generator's choice is resolved), and nothing else"""
+    from gym_gridverse.geometry import Position
+    from gym_gridverse.grid_object import Floor, Telepod
+    h, w = case['shape']
+    col = case['colour']
+    other = next(c for c in COLORS if c != col)
+    grid = [['F'] * w for _ in range(h)]
+    home = tuple(case['home'])
+    partners = [tuple(p) for p in case['partners']]
+    spare = [tuple(p) for p in case['spare']]
+    for p in [home] + partners:
+        grid[p[0]][p[1]] = f'T:{col}'
+    s = objs.build_state({'grid': grid, 'agent': [home[0], home[1], case['heading'], '_']})
+    tele = REG['teleport']
+    A = objs.action('TURN_LEFT')
+    guarded(ctx, 'teleport (first)', tele, s, A, rng=Scripted([case['first_pick']]))
+    if (s.agent.position.y, s.agent.position.x) not in partners:
+        ctx.fail(f'first teleport from {home}: agent at {(s.agent.position.y, s.agent.position.x)}, partners {partners}', {'kind': 'teleport_rule'})
+    for kind, k in case['edits']:
+        if kind == 'add' and spare:
+            p = spare.pop(k % len(spare))
+            s.grid[Position(*p)] = Telepod(objs.color(col))
+            partners.append(p)
+        elif kind == 'remove' and len(partners) > 1:
+            p = partners.pop(k % len(partners))
+            s.grid[Position(*p)] = Floor()
+            spare.append(p)
+        elif kind == 'recolour' and len(partners) > 1:
+            p = partners.pop(k % len(partners))
+            s.grid[Position(*p)].color = objs.color(other)
+    s.agent.position = Position(*home)
+    got = set()
+    radix = None
+    for v in range(len(partners) + 2):
+        rng = Scripted([v])
+        n = guarded(ctx, 'teleport (after the edits)', transition_with_copy, tele, s, A, rng=rng)
+        got.add((n.agent.position.y, n.agent.position.x))
+        radix = rng.radices[0] if rng.radices else None
+    if got != set(partners):
+        ctx.fail(f'after the world was edited ({[e[0] for e in case["edits"]]}) and the agent put back on its telepod at {home}: destinations over all outcomes of the choice {sorted(got)}, '
+                 f'same-coloured telepods now {sorted(partners)} (choice among {radix})', {'kind': 'teleport_possibility', 'aspect': 'history'})
+    ctx.ev.case(case, nt=True, classes=sorted({'edit:' + e[0] for e in case['edits']}) + [f'partners_now:{min(len(partners), 3)}'])
+
+
 from vgv import worldedit  # noqa: E402
 
 CHECKS.append(worldedit.make_check('C11'))
@@ -347,3 +410,7 @@ def oracle_sweep(case, ctx):
 CHECKS.append(Check('coordinate_sweep', oracle_sweep, enumerate=enum_sweep, shards={'quick': 16, 'thorough': 16}, exhaustive=True,
                     rule='all-floor worlds of 2 x L and L x 2 cells (L = 1030; thorough also 1100, 2050, 4100): a single obstacle on every cell in turn, moved in place: it ends on one of its four in-grid neighbours',
                     required=['length:1030']))
+
+CHECKS.append(Check('telepod_histories', oracle_tele_hist, strategy=strat_tele_hist, examples={'quick': 200, 'thorough': 1000}, shards={'quick': 2, 'thorough': 16},
+                    rule='one world in place: teleport once, then same-coloured telepods are added / removed / recoloured through the public API, the agent put back on its telepod: the set of destinations over every outcome of the choice == the telepods of that colour now',
+                    required=['edit:add', 'edit:remove', 'edit:recolour']))
